@@ -42,6 +42,8 @@ func runC08(c *an.Ctx) {
 	r08p(c)
 	r08r(c)
 	filterOnlyByType(c, "R08q", "FilterTasks")
+	// round 9
+	c.As(map[string]string{"R09a": "R08t"}, func() { r09a(c) })
 }
 
 func r08a(c *an.Ctx) {
